@@ -411,11 +411,12 @@ impl Deb822 {
                     current.push(c);
                 }
                 EMPTY_LINE => {
+                    // keep the comments; their line terminators are re-emitted below
                     current.extend(
                         c.as_node()
                             .unwrap()
                             .children_with_tokens()
-                            .skip_while(|c| matches!(c.kind(), EMPTY_LINE | NEWLINE | WHITESPACE)),
+                            .filter(|c| matches!(c.kind(), COMMENT | ERROR)),
                     );
                 }
                 _ => {}
@@ -437,6 +438,9 @@ impl Deb822 {
             }
             for c in paragraph.0.into_iter() {
                 builder.token(c.kind().into(), c.as_token().unwrap().text());
+                if c.kind() == COMMENT {
+                    builder.token(NEWLINE.into(), "\n");
+                }
             }
             let new_paragraph = if let Some(ref ws) = wrap_and_sort_paragraph {
                 ws(&paragraph.1)
@@ -448,6 +452,9 @@ impl Deb822 {
 
         for c in current {
             builder.token(c.kind().into(), c.as_token().unwrap().text());
+            if c.kind() == COMMENT {
+                builder.token(NEWLINE.into(), "\n");
+            }
         }
 
         builder.finish_node();
